@@ -163,6 +163,10 @@ package ipfscluster
 //@   ensures [success-logged] err == nil ==> nLogPin == old(nLogPin) + 1
 //@   ensures [copies-source] nLogPin == old(nLogPin) + 1 ==> lastLogged.Cid == to && lastLogged.PinUpdate == from && lastLogged.Allocations == pinset[from].Allocations && lastLogged.ReplicationFactorMin == pinset[from].ReplicationFactorMin && lastLogged.ReplicationFactorMax == pinset[from].ReplicationFactorMax && lastLogged.Mode == pinset[from].Mode && lastLogged.MaxDepth == pinset[from].MaxDepth && lastLogged.Type == pinset[from].Type && lastLogged.Metadata == pinset[from].Metadata && lastLogged.ShardSize == pinset[from].ShardSize
 //@   ensures [name-override] nLogPin == old(nLogPin) + 1 ==> lastLogged.Name == ite(opts.Name != "", opts.Name, pinset[from].Name)
+// the expiry is part of "the source pin's options": copied unless the request sets one (and then it is that one)
+//@   ensures [expiry-copied-unless-requested] nLogPin == old(nLogPin) + 1 && opts.ExpireAt == zerotime() ==> lastLogged.ExpireAt == pinset[from].ExpireAt
+//@   ensures [expiry-from-source-or-request] nLogPin == old(nLogPin) + 1 ==> lastLogged.ExpireAt == pinset[from].ExpireAt || lastLogged.ExpireAt == opts.ExpireAt
+//@   ensures [reference-and-origins-copied] nLogPin == old(nLogPin) + 1 ==> lastLogged.Reference == pinset[from].Reference && lastLogged.Origins == pinset[from].Origins
 //@   ensures [returns-logged] nLogPin == old(nLogPin) + 1 ==> res != nil && *res == lastLogged
 //@   ensures [existing-pins-untouched] forall q *api.Pin :: !fresh(q) ==> *q == old(*q)
 //@   modifies nLogPin, lastLogged, heap(api.Pin)
@@ -446,11 +450,32 @@ package ipfscluster
 
 // "A running peer republishes each of its metrics before the previous one expires": after a successful
 // publish the next one is scheduled at half the metric's time-to-live, after a failed one at a quarter
+// informerPublishers: the informers a publishing loop was started for (call/spawn-history ghost)
+//@ ghost var informerPublishers set[Informer]
+//@ ghost var pingPublishers int
 //@ func (c *Cluster) pushInformerMetrics
 //@   property C09
+//@   records informerPublishers = union(informerPublishers, setof(informer))
 //@   loop 1 (for)
 //@     invariant [republish-before-expiry] sendN > old(sendN) ==> (sendFailed ==> lastResetD == lastTTL / 4) && (!sendFailed ==> lastResetD == lastTTL / 2)
 //@   modifies sendN, sendFailed, lastResetD, lastTTL, heap(api.Metric)
+
+//@ func (c *Cluster) pushPingMetrics
+//@   property C09
+//@   counts pingPublishers when true
+//@   modifies *
+
+// "a running peer republishes EACH of its metrics (informer metrics and the ping)": run() starts one publishing loop
+// per configured informer - for that informer - and one for the ping
+//@ func (c *Cluster) run
+//@   property C09
+//@   ensures [a-publisher-per-informer] forall j int :: 0 <= j && j < len(c.informers) ==> in(c.informers[j], informerPublishers)
+//@   ensures [a-ping-publisher] pingPublishers == old(pingPublishers) + 1
+//@   loop 1 (range c.informers)
+//@     invariant forall j int :: 0 <= j && j < idx1 ==> in(c.informers[j], informerPublishers)
+//@     invariant pingPublishers == old(pingPublishers) + 1
+//@     invariant forall q *Cluster :: *q == old(*q)
+//@   modifies informerPublishers, pingPublishers
 
 // ---- C15: the cluster section's saved form: every setting is written from the field of the same name ----
 //@ func (cfg *Config) toConfigJSON
@@ -483,6 +508,46 @@ package ipfscluster
 //@   ensures [peer-addresses] err == nil ==> len(jcfg.PeerAddresses) == len(cfg.PeerAddresses) && forall j int :: 0 <= j && j < len(cfg.PeerAddresses) ==> jcfg.PeerAddresses[j] == cfg.PeerAddresses[j].String()
 //@   ensures [follower-mode] err == nil ==> jcfg.FollowerMode == cfg.FollowerMode
 //@   modifies nothing
+
+// the cluster section's loaded form: every setting the saved form carries is read back into the field of the same name
+// (a zero / empty value keeps the default), and what is loaded has passed Validate
+//@ func DecodeClusterSecret
+//@   property C15
+//@   ensures err == nil ==> len(res) == 0 || len(res) == 32
+//@   modifies nothing
+//@ extern multiaddr.NewMultiaddr(s)
+//@   ensures res == libfn("multiaddr.NewMultiaddr", 0, s)
+//@ func (cfg *Config) Validate
+//@   opts trusted
+//@   modifies nothing
+//@ func (cfg *Config) applyConfigJSON
+//@   property C15
+//@   inline SetIfNotDefault
+//@   requires cfg != nil && jcfg != nil
+//@   ensures [peername] err == nil ==> cfg.Peername == ite(jcfg.Peername != "", jcfg.Peername, old(cfg.Peername))
+//@   ensures [peerstore-file] err == nil ==> cfg.PeerstoreFile == ite(jcfg.PeerstoreFile != "", jcfg.PeerstoreFile, old(cfg.PeerstoreFile))
+//@   ensures [replication-factors] err == nil ==> cfg.ReplicationFactorMin == ite(jcfg.ReplicationFactorMin != 0, jcfg.ReplicationFactorMin, old(cfg.ReplicationFactorMin)) && cfg.ReplicationFactorMax == ite(jcfg.ReplicationFactorMax != 0, jcfg.ReplicationFactorMax, old(cfg.ReplicationFactorMax))
+//@   ensures [listen-multiaddress] err == nil ==> len(cfg.ListenAddr) == len(jcfg.ListenMultiaddress) && forall j int :: 0 <= j && j < len(jcfg.ListenMultiaddress) ==> cfg.ListenAddr[j] == libfn("multiaddr.NewMultiaddr", 0, jcfg.ListenMultiaddress[j])
+//@   ensures [peer-addresses] err == nil ==> len(cfg.PeerAddresses) == len(jcfg.PeerAddresses) && forall j int :: 0 <= j && j < len(jcfg.PeerAddresses) ==> cfg.PeerAddresses[j] == libfn("multiaddr.NewMultiaddr", 0, jcfg.PeerAddresses[j])
+//@   ensures [enable-relay-hop] err == nil ==> cfg.EnableRelayHop == jcfg.EnableRelayHop
+//@   ensures [leave-on-shutdown] err == nil ==> cfg.LeaveOnShutdown == jcfg.LeaveOnShutdown
+//@   ensures [disable-repinning] err == nil ==> cfg.DisableRepinning == jcfg.DisableRepinning
+//@   ensures [follower-mode] err == nil ==> cfg.FollowerMode == jcfg.FollowerMode
+//@   ensures [connection-manager] err == nil && jcfg.ConnectionManager != nil ==> cfg.ConnMgr.HighWater == jcfg.ConnectionManager.HighWater && cfg.ConnMgr.LowWater == jcfg.ConnectionManager.LowWater && (jcfg.ConnectionManager.GracePeriod != "" ==> cfg.ConnMgr.GracePeriod == parseDur(jcfg.ConnectionManager.GracePeriod))
+//@   ensures [dial-peer-timeout] err == nil ==> cfg.DialPeerTimeout == ite(jcfg.DialPeerTimeout != "", parseDur(jcfg.DialPeerTimeout), old(cfg.DialPeerTimeout))
+//@   ensures [state-sync-interval] err == nil ==> cfg.StateSyncInterval == ite(jcfg.StateSyncInterval != "", parseDur(jcfg.StateSyncInterval), old(cfg.StateSyncInterval))
+//@   ensures [pin-recover-interval] err == nil ==> cfg.PinRecoverInterval == ite(jcfg.PinRecoverInterval != "", parseDur(jcfg.PinRecoverInterval), old(cfg.PinRecoverInterval))
+//@   ensures [monitor-ping-interval] err == nil ==> cfg.MonitorPingInterval == ite(jcfg.MonitorPingInterval != "", parseDur(jcfg.MonitorPingInterval), old(cfg.MonitorPingInterval))
+//@   ensures [peer-watch-interval] err == nil ==> cfg.PeerWatchInterval == ite(jcfg.PeerWatchInterval != "", parseDur(jcfg.PeerWatchInterval), old(cfg.PeerWatchInterval))
+//@   ensures [mdns-interval] err == nil ==> cfg.MDNSInterval == ite(jcfg.MDNSInterval != "", parseDur(jcfg.MDNSInterval), old(cfg.MDNSInterval))
+//@   loop 1 (range jcfg.ListenMultiaddress)
+//@     invariant len(listenAddrs) == idx1 && forall j int :: 0 <= j && j < idx1 ==> listenAddrs[j] == libfn("multiaddr.NewMultiaddr", 0, jcfg.ListenMultiaddress[j])
+//@     invariant cfg.Peername == ite(jcfg.Peername != "", jcfg.Peername, old(cfg.Peername)) && cfg.PeerstoreFile == ite(jcfg.PeerstoreFile != "", jcfg.PeerstoreFile, old(cfg.PeerstoreFile))
+//@     invariant forall q *configJSON :: *q == old(*q)
+//@   loop 2 (range jcfg.PeerAddresses)
+//@     invariant len(peerAddrs) == idx2 && forall j int :: 0 <= j && j < idx2 ==> peerAddrs[j] == libfn("multiaddr.NewMultiaddr", 0, jcfg.PeerAddresses[j])
+//@     invariant forall q *configJSON :: *q == old(*q)
+//@   modifies *
 
 // ---- C06: the cluster-wide status of one CID ----
 //@ spec func pkey(p peer.ID) string = libfn("peer.Encode", 0, p)
